@@ -67,6 +67,36 @@ func panicSig(stage string, r any) string {
 	return "C06/" + stage + "-panic"
 }
 
+// oracleResult is what an entry-point oracle reports back to a structure-aware caller.
+type oracleResult struct {
+	accepted bool      // the entry point produced an address
+	addr     conn.Addr // the address it produced
+	user     string
+	use      useResult
+}
+
+// thin returns the indexes of a seed list to hand to f.Add: the first 40 (valid messages built by the repo's own
+// encoders come first in every list) and then a stride through the hostile constants, at most max in total. The
+// whole list is always run by TestSeeds; the fuzz engine only needs representatives (its baseline-coverage pass
+// executes every seed under instrumentation before it mutates anything).
+func thin(n, max int) []int {
+	var idx []int
+	for i := 0; i < n && i < 40; i++ {
+		idx = append(idx, i)
+	}
+	if n <= 40 {
+		return idx
+	}
+	step := (n - 40 + (max - 40) - 1) / (max - 40)
+	if step < 1 {
+		step = 1
+	}
+	for i := 40; i < n; i += step {
+		idx = append(idx, i)
+	}
+	return idx
+}
+
 // ---- loggers
 
 var (
